@@ -395,6 +395,11 @@ pub fn check_cmd(args: CheckArgs) -> i32 {
             if kp[gi] || census_g[gi].interesting() {
                 // the 5- to 7-chamber extras: covers with <= 2 sheets only
                 cover_bases.push((e, kp[gi], if gi >= corpus.extra_from { 2 } else { kmax }));
+            } else if gi < corpus.extra_from && (tier == Tier::Thorough || crate::prng::hmix(&[seed, 0xC0F2, gi as u64]) % 16 == 0) {
+                // symbols the invariant filter rejects: their 2-sheeted covers must not
+                // be reported euclidean either and must not panic (thorough: all of
+                // G4, quick: a seeded sixteenth)
+                cover_bases.push((e, false, 2));
             }
         }
         let cover_counts = CoverCounts::compute(&cover_bases);
